@@ -28,7 +28,7 @@ type fakeRW struct {
 	failAt   int // fail the n-th Write (1-based); 0 = never
 	writes   int
 	onWrite  func(p []byte)
-	gateFn   func() // called before every write, outside the lock (stalled writer)
+	gateFn   func()   // called before every write, outside the lock (stalled writer)
 	events   []string // trace of writes/flushes for the timed family
 	// holdFail: the first failing write parks until the harness releases it, so that connections that
 	// die because of the same publication die in a defined order (the model's: connection order)
